@@ -425,6 +425,45 @@ func init() {
 		return []string{usedTable(a[0], t), strings.Join(es, ","), strconv.Itoa(bad)}, nil
 	})
 
+	// optpos SPEC protein calls -> table, per POSITION codon counts "0:TRIPLET=count,…;1:…", calls that did not return ok
+	runner.Register("optpos", func(a []string) ([]string, error) {
+		t, err := c0607Table(a[0])
+		if err != nil {
+			return nil, err
+		}
+		calls, _ := strconv.Atoi(a[2])
+		p := a[1]
+		counts := make([]map[string]int, len(p))
+		for i := range counts {
+			counts[i] = map[string]int{}
+		}
+		bad := 0
+		for i := 0; i < calls; i++ {
+			st, dna := c07Optimize(p, t)
+			if st != "ok" || len(dna) != 3*len(p) {
+				bad++
+				continue
+			}
+			for j := 0; j < len(p); j++ {
+				counts[j][dna[3*j:3*j+3]]++
+			}
+		}
+		var parts []string
+		for j := range counts {
+			var keys []string
+			for k := range counts[j] {
+				keys = append(keys, k)
+			}
+			sort.Strings(keys)
+			var es []string
+			for _, k := range keys {
+				es = append(es, k+"="+strconv.Itoa(counts[j][k]))
+			}
+			parts = append(parts, strconv.Itoa(j)+":"+strings.Join(es, ","))
+		}
+		return []string{usedTable(a[0], t), strings.Join(parts, ";"), strconv.Itoa(bad)}, nil
+	})
+
 	// optreplay SPEC protein CHOOSERS -> table, status, dna, found, offset | "probe-seed", "r1,r2,…", touched (did the call touch the
 	// global generator), status and value of Translate(dna)
 	// CHOOSERS = "L:ITEM=w,ITEM=w;K:…": per residue letter the choices in the order the MODEL says NewChooser leaves them.
